@@ -108,6 +108,13 @@ Qed.
 Lemma nthz_In l i : i < length l -> In (nthz l i) l.
 Proof. intros H. unfold nthz. apply nth_In. exact H. Qed.
 
+Lemma nth_map_gen {A B} (f : A -> B) (l : list A) i da db :
+  i < length l -> nth i (map f l) db = f (nth i l da).
+Proof.
+  revert i. induction l as [|a t IH]; simpl; intros i H; [lia|].
+  destruct i as [|i]; [reflexivity|]. apply IH. lia.
+Qed.
+
 Lemma nthn_map_lt {A} (f : A -> nat) (l : list A) (d : A) i :
   i < length l -> nthn (map f l) i = f (nth i l d).
 Proof.
@@ -339,11 +346,770 @@ Section Reindex.
       assert (H := ssorted_nth _ a b HS Hab).
       rewrite map_length, order_len in H. specialize (H Hb).
       assert (Hk : forall p, p < k -> nthz (map (nthz keys) order) p = (- Z.of_nat (nthn counts (nthn order p)))%Z).
-      { intros p Hp. unfold nthz at 1. rewrite (nth_indep _ 0%Z (nthz keys 0)) by (rewrite map_length, order_len; exact Hp).
-        rewrite map_nth. fold (nthn order p). unfold keys, nthz.
-        rewrite (nth_indep _ 0%Z ((fun c => (- Z.of_nat c)%Z) 0)).
-        - rewrite map_nth. reflexivity.
-        - rewrite map_length. unfold counts, unique_counts. rewrite map_length. apply order_nth_lt. exact Hp. }
+      { intros p Hp. unfold nthz at 1. rewrite (nth_map_gen _ _ _ 0) by (rewrite order_len; exact Hp).
+        fold (nthn order p). unfold keys, nthz.
+        rewrite (nth_map_gen _ _ _ 0); [reflexivity|].
+        unfold counts, unique_counts. rewrite map_length. apply order_nth_lt. exact Hp. }
       rewrite !Hk in H by lia. lia.
   Qed.
 End Reindex.
+
+(* ------------------------------------------------------------------------------------------ *)
+(** * Un-shuffling *)
+
+Lemma upd_length {A} (l : list A) i x : length (upd l i x) = length l.
+Proof.
+  unfold upd. destruct (Nat.ltb i (length l)) eqn:E; [|reflexivity].
+  apply Nat.ltb_lt in E. rewrite app_length. cbn [length]. rewrite firstn_length, skipn_length. lia.
+Qed.
+
+Lemma nth_upd_same {A} (l : list A) i x d : i < length l -> nth i (upd l i x) d = x.
+Proof.
+  intros H. unfold upd. apply Nat.ltb_lt in H. rewrite H. apply Nat.ltb_lt in H.
+  rewrite app_nth2; rewrite firstn_length; [|lia].
+  replace (i - Nat.min i (length l)) with 0 by lia. reflexivity.
+Qed.
+
+Lemma nth_skipn_add {A} (l : list A) k m d : nth m (skipn k l) d = nth (k + m) l d.
+Proof.
+  revert l. induction k as [|k IH]; intros l; [reflexivity|].
+  destruct l as [|a t]; [destruct m; reflexivity|]. cbn [skipn Nat.add nth]. apply IH.
+Qed.
+
+Lemma nth_upd_other {A} (l : list A) i j x d : i <> j -> nth j (upd l i x) d = nth j l d.
+Proof.
+  intros H. unfold upd. destruct (Nat.ltb i (length l)) eqn:E; [|reflexivity].
+  apply Nat.ltb_lt in E.
+  destruct (Nat.lt_ge_cases j i) as [Hj|Hj].
+  - rewrite app_nth1 by (rewrite firstn_length; lia).
+    rewrite <- (firstn_skipn i l) at 2. rewrite app_nth1 by (rewrite firstn_length; lia). reflexivity.
+  - rewrite app_nth2 by (rewrite firstn_length; lia). rewrite firstn_length.
+    replace (Nat.min i (length l)) with i by lia.
+    destruct (j - i) as [|m] eqn:Em; [lia|]. cbn [nth].
+    rewrite nth_skipn_add. f_equal. lia.
+Qed.
+
+Definition scatter_step {A} (acc : list A) (p : nat * A) : list A := upd acc (fst p) (snd p).
+
+Lemma scatter_fold_length {A} (pairs : list (nat * A)) init :
+  length (fold_left scatter_step pairs init) = length init.
+Proof.
+  revert init. induction pairs as [|q r IH]; intros init; [reflexivity|].
+  cbn [fold_left]. rewrite IH. apply upd_length.
+Qed.
+
+Lemma scatter_untouched {A} (pairs : list (nat * A)) init v d :
+  ~ In v (map fst pairs) -> nth v (fold_left scatter_step pairs init) d = nth v init d.
+Proof.
+  revert init. induction pairs as [|q r IH]; intros init H; [reflexivity|].
+  cbn [fold_left]. rewrite IH by (intros Hin; apply H; right; exact Hin).
+  apply nth_upd_other. intros E. apply H. left. exact E.
+Qed.
+
+Lemma scatter_written {A} (pairs : list (nat * A)) init d :
+  NoDup (map fst pairs) -> (forall p, In p pairs -> fst p < length init) ->
+  forall p, In p pairs -> nth (fst p) (fold_left scatter_step pairs init) d = snd p.
+Proof.
+  revert init. induction pairs as [|q r IH]; intros init HN Hlt p Hp; [destruct Hp|].
+  cbn [map] in HN. inversion HN as [|? ? Hq HNr]; subst.
+  cbn [fold_left]. destruct Hp as [->|Hp].
+  - rewrite scatter_untouched by exact Hq. apply nth_upd_same. apply Hlt. left; reflexivity.
+  - apply IH; auto. intros p' Hp'. unfold scatter_step. rewrite upd_length. apply Hlt. right; exact Hp'.
+Qed.
+
+Lemma scatter_eq {A} (init : list A) keys vals :
+  scatter init keys vals = fold_left scatter_step (combine keys vals) init.
+Proof. reflexivity. Qed.
+
+Lemma map_fst_combine {A B} (a : list A) (b : list B) : length a = length b -> map fst (combine a b) = a.
+Proof.
+  revert b. induction a as [|x a IH]; intros [|y b] H; simpl in *; try lia; [reflexivity|].
+  f_equal. apply IH. lia.
+Qed.
+
+Lemma In_combine_nth {A B} (a : list A) (b : list B) i da db :
+  i < length a -> length a = length b -> In (nth i a da, nth i b db) (combine a b).
+Proof.
+  revert b i. induction a as [|x a IH]; intros [|y b] i Hi H; simpl in *; try lia.
+  destruct i as [|i]; [left; reflexivity|]. right. apply IH; lia.
+Qed.
+
+Lemma reverse_index_spec index n :
+  Permutation index (seq 0 n) ->
+  length (reverse_index index) = n /\
+  forall i, i < n -> nthn (reverse_index index) (nthn index i) = i.
+Proof.
+  intros HP. assert (Hlen : length index = n) by (rewrite (Permutation_length HP); apply seq_length).
+  unfold reverse_index. rewrite scatter_eq, Hlen. split.
+  - rewrite scatter_fold_length. apply repeat_length.
+  - intros i Hi. unfold nthn.
+    assert (Hin : In (nth i index 0, nth i (seq 0 n) 0) (combine index (seq 0 n))).
+    { apply In_combine_nth; [lia | rewrite seq_length; exact Hlen]. }
+    rewrite seq_nth in Hin by exact Hi. cbn [Nat.add] in Hin.
+    apply (scatter_written (combine index (seq 0 n)) (repeat 0 n) 0) in Hin; [exact Hin | |].
+    + rewrite map_fst_combine by (rewrite seq_length; exact Hlen).
+      apply (Permutation_NoDup (Permutation_sym HP)). apply seq_NoDup.
+    + intros [pa pb] Hp. rewrite repeat_length. apply in_combine_l in Hp.
+      apply (Permutation_in _ HP) in Hp. apply in_seq in Hp. cbn [fst]. lia.
+Qed.
+
+Lemma unshuffle_correct_pf (index labels : list nat) :
+  let n := length labels in
+  Permutation index (seq 0 n) ->
+  let out := unshuffle index labels in
+  length out = n /\
+  (forall i, i < n -> nthn out (nthn index i) = nthn labels i) /\
+  Permutation out labels.
+Proof.
+  intros n HP out. destruct (reverse_index_spec index n HP) as [Hlen Hrev].
+  assert (Hilen : length index = n) by (rewrite (Permutation_length HP); apply seq_length).
+  assert (Hout : length out = n) by (unfold out, unshuffle; rewrite map_length; exact Hlen).
+  assert (Hidx : forall i, i < n -> nthn index i < n).
+  { intros i Hi. assert (H : In (nthn index i) index) by (apply nthn_In; lia).
+    apply (Permutation_in _ HP) in H. apply in_seq in H. lia. }
+  assert (Hval : forall i, i < n -> nthn out (nthn index i) = nthn labels i).
+  { intros i Hi. unfold out, unshuffle.
+    rewrite (nthn_map_lt _ _ 0) by (rewrite Hlen; apply Hidx; exact Hi).
+    fold (nthn (reverse_index index) (nthn index i)). rewrite Hrev by exact Hi. reflexivity. }
+  split; [exact Hout|]. split; [exact Hval|].
+  (* labels = map (nthn out) index and out = map (nthn out) (seq 0 n) *)
+  assert (E1 : labels = map (nthn out) index).
+  { apply (nth_ext _ _ 0 0); [rewrite map_length; lia|].
+    intros i Hi. fold n in Hi. change (nth i (map (nthn out) index) 0) with (nthn (map (nthn out) index) i).
+    rewrite (nthn_map_lt _ _ 0) by lia. fold (nthn index i). rewrite Hval by exact Hi. reflexivity. }
+  assert (E2 : out = map (nthn out) (seq 0 n)).
+  { apply (nth_ext _ _ 0 0); [rewrite map_length, seq_length; exact Hout|].
+    intros i Hi. rewrite Hout in Hi.
+    change (nth i (map (nthn out) (seq 0 n)) 0) with (nthn (map (nthn out) (seq 0 n)) i).
+    rewrite (nthn_map_lt _ _ 0) by (rewrite seq_length; exact Hi). rewrite seq_nth by exact Hi. reflexivity. }
+  assert (HPm := Permutation_map (nthn out) (Permutation_sym HP)).
+  rewrite <- E1 in HPm. rewrite <- E2 in HPm. exact HPm.
+Qed.
+
+(* ------------------------------------------------------------------------------------------ *)
+(** * Finite sums over Q and dense matrices *)
+
+Lemma sumq_cons x l : sumq (x :: l) = (x + sumq l)%Q.
+Proof. reflexivity. Qed.
+
+Lemma sumq_ext {A} (f g : A -> Q) l :
+  (forall x, In x l -> (f x == g x)%Q) -> (sumq (map f l) == sumq (map g l))%Q.
+Proof.
+  induction l as [|a t IH]; intros H; [reflexivity|].
+  cbn [map]. rewrite !sumq_cons. rewrite (H a (or_introl eq_refl)).
+  rewrite IH; [reflexivity|]. intros x Hx. apply H. right; exact Hx.
+Qed.
+
+Lemma sumq_zero {A} (f : A -> Q) l : (forall x, In x l -> (f x == 0)%Q) -> (sumq (map f l) == 0)%Q.
+Proof.
+  induction l as [|a t IH]; intros H; [reflexivity|].
+  cbn [map]. rewrite sumq_cons. rewrite (H a (or_introl eq_refl)).
+  rewrite IH; [ring|]. intros x Hx. apply H. right; exact Hx.
+Qed.
+
+Lemma sumq_add {A} (f g : A -> Q) l :
+  (sumq (map (fun x => f x + g x) l) == sumq (map f l) + sumq (map g l))%Q.
+Proof.
+  induction l as [|a t IH]; [cbn; ring|].
+  cbn [map]. rewrite !sumq_cons. rewrite IH. ring.
+Qed.
+
+Lemma sumq_scale_l {A} (c : Q) (f : A -> Q) l :
+  (c * sumq (map f l) == sumq (map (fun x => c * f x) l))%Q.
+Proof.
+  induction l as [|a t IH]; [cbn; ring|].
+  cbn [map]. rewrite !sumq_cons. rewrite <- IH. ring.
+Qed.
+
+Lemma sumq_scale_r {A} (c : Q) (f : A -> Q) l :
+  (sumq (map f l) * c == sumq (map (fun x => f x * c) l))%Q.
+Proof.
+  induction l as [|a t IH]; [cbn; ring|].
+  cbn [map]. rewrite !sumq_cons. rewrite <- IH. ring.
+Qed.
+
+Lemma sumq_swap {A B} (f : A -> B -> Q) la lb :
+  (sumq (map (fun a => sumq (map (f a) lb)) la) == sumq (map (fun b => sumq (map (fun a => f a b) la)) lb))%Q.
+Proof.
+  induction la as [|a t IH].
+  - cbn [map sumq fold_right]. symmetry. apply sumq_zero. intros; reflexivity.
+  - cbn [map]. rewrite sumq_cons. rewrite IH.
+    rewrite <- sumq_add. apply sumq_ext. intros b _. rewrite sumq_cons. reflexivity.
+Qed.
+
+Lemma sumq_nonneg {A} (f : A -> Q) l : (forall x, In x l -> (0 <= f x)%Q) -> (0 <= sumq (map f l))%Q.
+Proof.
+  induction l as [|a t IH]; intros H; [cbn; lra|].
+  cbn [map]. rewrite sumq_cons.
+  assert (H1 := H a (or_introl eq_refl)).
+  assert (H2 : (0 <= sumq (map f t))%Q) by (apply IH; intros x Hx; apply H; right; exact Hx).
+  lra.
+Qed.
+
+Lemma sumq_onehot (z : Z) (f : nat -> Q) s k :
+  (Z.of_nat s <= z < Z.of_nat (s + k))%Z ->
+  (sumq (map (fun c => if (z =? Z.of_nat c)%Z then f c else 0%Q) (seq s k)) == f (Z.to_nat z))%Q.
+Proof.
+  revert s. induction k as [|k IH]; intros s H; [lia|].
+  cbn [seq map]. rewrite sumq_cons.
+  destruct (z =? Z.of_nat s)%Z eqn:E.
+  - apply Z.eqb_eq in E. rewrite E, Nat2Z.id.
+    rewrite sumq_zero; [ring|]. intros c Hc. apply in_seq in Hc.
+    destruct (Z.of_nat s =? Z.of_nat c)%Z eqn:E2; [apply Z.eqb_eq in E2; lia | reflexivity].
+  - apply Z.eqb_neq in E. rewrite IH by lia. ring.
+Qed.
+
+Lemma sumq_onehot_out (z : Z) (f : nat -> Q) k :
+  ~ (0 <= z < Z.of_nat k)%Z ->
+  (sumq (map (fun c => if (z =? Z.of_nat c)%Z then f c else 0%Q) (seq 0 k)) == 0)%Q.
+Proof.
+  intros H. apply sumq_zero. intros c Hc. apply in_seq in Hc.
+  destruct (z =? Z.of_nat c)%Z eqn:E; [apply Z.eqb_eq in E; lia | reflexivity].
+Qed.
+
+Lemma mk_length n m f : length (mk n m f) = n.
+Proof. unfold mk. rewrite map_length, seq_length. reflexivity. Qed.
+
+Lemma mk_row n m f i : i < n -> nth i (mk n m f) [] = map (fun j => f i j) (seq 0 m).
+Proof.
+  intros H. unfold mk. rewrite (nth_map_gen _ _ _ 0) by (rewrite seq_length; exact H).
+  rewrite seq_nth by exact H. reflexivity.
+Qed.
+
+Lemma ent_mk n m f i j : i < n -> j < m -> ent (mk n m f) i j = f i j.
+Proof.
+  intros Hi Hj. unfold ent. rewrite mk_row by exact Hi. unfold nthq.
+  rewrite (nth_map_gen _ _ _ 0) by (rewrite seq_length; exact Hj).
+  rewrite seq_nth by exact Hj. reflexivity.
+Qed.
+
+Lemma ent_onehot n k lab i c :
+  i < n -> c < k -> ent (onehot n k lab) i c = if (lab i =? Z.of_nat c)%Z then 1%Q else 0%Q.
+Proof. intros Hi Hc. unfold onehot. apply ent_mk; assumption. Qed.
+
+Lemma ent_mmul n k m A B i c :
+  i < n -> c < m ->
+  ent (mmul n k m A B) i c = sumq (map (fun j => (ent A i j * ent B j c)%Q) (seq 0 k)).
+Proof. intros Hi Hc. unfold mmul. apply ent_mk; assumption. Qed.
+
+Lemma ent_mtrans n m A i j : i < m -> j < n -> ent (mtrans n m A) i j = ent A j i.
+Proof. intros Hi Hj. unfold mtrans. rewrite ent_mk by assumption. reflexivity. Qed.
+
+Definition in_range (k : nat) (lab : nat -> Z) (n : nat) : Prop :=
+  forall j, j < n -> (0 <= lab j < Z.of_nat k)%Z.
+
+(** Row sums of X . M for a one-hot M whose labels all lie in 0..k-1: those of X. *)
+Lemma row_sum_mmul_onehot r n k X lab i :
+  in_range k lab n -> i < r ->
+  (row_sum k (mmul r n k X (onehot n k lab)) i == row_sum n X i)%Q.
+Proof.
+  intros Hr Hi. unfold row_sum.
+  rewrite (sumq_ext _ (fun c => sumq (map (fun j => if (lab j =? Z.of_nat c)%Z then ent X i j else 0%Q) (seq 0 n)))).
+  - rewrite (sumq_swap (fun c j => if (lab j =? Z.of_nat c)%Z then ent X i j else 0%Q)).
+    apply sumq_ext. intros j Hj. apply in_seq in Hj.
+    rewrite (sumq_onehot (lab j) (fun _ => ent X i j) 0 k); [reflexivity|].
+    specialize (Hr j). cbn [Nat.add]. lia.
+  - intros c Hc. apply in_seq in Hc. rewrite ent_mmul by lia.
+    apply sumq_ext. intros j Hj. apply in_seq in Hj. rewrite ent_onehot by lia.
+    destruct (lab j =? Z.of_nat c)%Z; ring.
+Qed.
+
+Lemma ent_mmul_nonneg r n k X lab i c :
+  (forall j, j < n -> (0 <= ent X i j)%Q) -> i < r -> c < k ->
+  (0 <= ent (mmul r n k X (onehot n k lab)) i c)%Q.
+Proof.
+  intros HX Hi Hc. rewrite ent_mmul by assumption. apply sumq_nonneg.
+  intros j Hj. apply in_seq in Hj. rewrite ent_onehot by lia.
+  specialize (HX j). destruct (lab j =? Z.of_nat c)%Z; [|lra].
+  assert (H : (0 <= ent X i j)%Q) by (apply HX; lia). lra.
+Qed.
+
+(** total(M^T . X) = total(X) for a one-hot M (n x k) whose labels all lie in 0..k-1. *)
+Lemma total_mtrans_onehot n k m X lab :
+  in_range k lab n ->
+  (total k m (mmul k n m (mtrans n k (onehot n k lab)) X) == total n m X)%Q.
+Proof.
+  intros Hr. unfold total, row_sum.
+  rewrite (sumq_ext _ (fun a => sumq (map (fun i => if (lab i =? Z.of_nat a)%Z then row_sum m X i else 0%Q) (seq 0 n)))).
+  - rewrite (sumq_swap (fun a i => if (lab i =? Z.of_nat a)%Z then row_sum m X i else 0%Q)).
+    apply sumq_ext. intros i Hi. apply in_seq in Hi.
+    rewrite (sumq_onehot (lab i) (fun _ => row_sum m X i) 0 k); [reflexivity|].
+    specialize (Hr i). cbn [Nat.add]. lia.
+  - intros a Ha. apply in_seq in Ha.
+    rewrite (sumq_ext _ (fun c => sumq (map (fun i => if (lab i =? Z.of_nat a)%Z then ent X i c else 0%Q) (seq 0 n)))).
+    + rewrite (sumq_swap (fun c i => if (lab i =? Z.of_nat a)%Z then ent X i c else 0%Q)).
+      apply sumq_ext. intros i Hi. destruct (lab i =? Z.of_nat a)%Z; [reflexivity|].
+      apply sumq_zero. intros; reflexivity.
+    + intros c Hc. apply in_seq in Hc. rewrite ent_mmul by lia.
+      apply sumq_ext. intros i Hi. apply in_seq in Hi.
+      rewrite ent_mtrans by lia. rewrite ent_onehot by lia.
+      destruct (lab i =? Z.of_nat a)%Z; ring.
+Qed.
+
+Lemma total_ext n m m' X Y :
+  (forall i, i < n -> (row_sum m X i == row_sum m' Y i)%Q) -> (total n m X == total n m' Y)%Q.
+Proof. intros H. unfold total. apply sumq_ext. intros i Hi. apply in_seq in Hi. apply H. lia. Qed.
+
+(** Entries of the two association orders of M_r^T A M_c are the block sums. *)
+Lemma block_sum_right n m k k' A lr lc a b :
+  a < k -> b < k' ->
+  (ent (mmul k n k' (mtrans n k (onehot n k lr)) (mmul n m k' A (onehot m k' lc))) a b
+   == block_sum n m A lr lc a b)%Q.
+Proof.
+  intros Ha Hb. rewrite ent_mmul by assumption. unfold block_sum.
+  apply sumq_ext. intros i Hi. apply in_seq in Hi.
+  rewrite ent_mtrans by lia. rewrite ent_onehot by lia. rewrite ent_mmul by lia.
+  rewrite sumq_scale_l. apply sumq_ext. intros j Hj. apply in_seq in Hj.
+  rewrite ent_onehot by lia.
+  destruct (lr i =? Z.of_nat a)%Z; destruct (lc j =? Z.of_nat b)%Z; cbn [andb]; ring.
+Qed.
+
+Lemma block_sum_left n m k k' A lr lc a b :
+  a < k -> b < k' ->
+  (ent (mmul k m k' (mmul k n m (mtrans n k (onehot n k lr)) A) (onehot m k' lc)) a b
+   == block_sum n m A lr lc a b)%Q.
+Proof.
+  intros Ha Hb. rewrite ent_mmul by assumption. unfold block_sum.
+  rewrite (sumq_ext _ (fun j => sumq (map (fun i =>
+     if (lr i =? Z.of_nat a)%Z && (lc j =? Z.of_nat b)%Z then ent A i j else 0%Q) (seq 0 n)))).
+  - rewrite (sumq_swap (fun j i => if (lr i =? Z.of_nat a)%Z && (lc j =? Z.of_nat b)%Z then ent A i j else 0%Q)).
+    reflexivity.
+  - intros j Hj. apply in_seq in Hj. rewrite ent_mmul by lia. rewrite ent_onehot by lia.
+    rewrite sumq_scale_r. apply sumq_ext. intros i Hi. apply in_seq in Hi.
+    rewrite ent_mtrans by lia. rewrite ent_onehot by lia.
+    destruct (lr i =? Z.of_nat a)%Z; destruct (lc j =? Z.of_nat b)%Z; cbn [andb]; ring.
+Qed.
+
+(** Rows of normalize(Y) for a non-negative Y. *)
+Lemma normalize_rows r k Y i :
+  (forall c, c < k -> (0 <= ent Y i c)%Q) -> i < r ->
+  (forall c, c < k -> (0 <= ent (normalize r k Y) i c)%Q) /\
+  ((0 < row_sum k Y i)%Q -> (row_sum k (normalize r k Y) i == 1)%Q) /\
+  ((row_sum k Y i == 0)%Q -> (row_sum k (normalize r k Y) i == 0)%Q /\
+                             forall c, c < k -> (ent (normalize r k Y) i c == 0)%Q).
+Proof.
+  intros HY Hi.
+  assert (Hnorm : (row_norm k Y i == row_sum k Y i)%Q).
+  { unfold row_norm, row_sum. apply sumq_ext. intros c Hc. apply in_seq in Hc.
+    apply Qabs_pos. apply HY. lia. }
+  assert (Hent : forall c, c < k ->
+            ent (normalize r k Y) i c = if Qeq_bool (row_norm k Y i) 0 then 0%Q else (ent Y i c / row_norm k Y i)%Q).
+  { intros c Hc. unfold normalize. rewrite ent_mk by assumption. reflexivity. }
+  assert (Hpos : (0 <= row_sum k Y i)%Q).
+  { unfold row_sum. apply sumq_nonneg. intros c Hc. apply in_seq in Hc. apply HY. lia. }
+  destruct (Qeq_bool (row_norm k Y i) 0) eqn:E.
+  - apply Qeq_bool_iff in E. rewrite Hnorm in E.
+    assert (Hz : forall c, c < k -> (ent (normalize r k Y) i c == 0)%Q) by (intros c Hc; rewrite Hent by exact Hc; reflexivity).
+    assert (Hs : (row_sum k (normalize r k Y) i == 0)%Q).
+    { unfold row_sum. apply sumq_zero. intros c Hc. apply in_seq in Hc. apply Hz. lia. }
+    split; [intros c Hc; rewrite Hz by exact Hc; lra|].
+    split; [intros H; rewrite E in H; lra | intros _; split; assumption].
+  - assert (Hne : ~ (row_norm k Y i == 0)%Q).
+    { intros H. apply Qeq_bool_iff in H. rewrite H in E. discriminate. }
+    assert (Hgt : (0 < row_norm k Y i)%Q) by (rewrite Hnorm in *; lra).
+    split; [|split].
+    + intros c Hc. rewrite Hent by exact Hc. unfold Qdiv.
+      apply Qmult_le_0_compat; [apply HY; exact Hc | apply Qlt_le_weak, Qinv_lt_0_compat; exact Hgt].
+    + intros _. unfold row_sum.
+      rewrite (sumq_ext _ (fun c => (ent Y i c * / row_norm k Y i)%Q)).
+      * rewrite <- sumq_scale_r. fold (row_sum k Y i). rewrite <- Hnorm. apply Qmult_inv_r. exact Hne.
+      * intros c Hc. apply in_seq in Hc. rewrite Hent by lia. reflexivity.
+    + intros H. rewrite Hnorm in Hne. contradiction.
+Qed.
+
+(* ------------------------------------------------------------------------------------------ *)
+(** * get_membership, _secondary_outputs *)
+
+Lemma get_membership_ok labels o k M :
+  get_membership labels o = Ok (k, M) ->
+  M = membership labels k /\ (forall l, In l labels -> (l < Z.of_nat k)%Z) /\
+  match o with Some k0 => k = k0 | None => True end.
+Proof.
+  unfold get_membership. intros H.
+  assert (Hgen : forall k0, (if forallb (fun l => (l <? Z.of_nat k0)%Z) labels then Ok (k0, membership labels k0)
+                             else Err ValueError) = Ok (k, M) ->
+                            k = k0 /\ M = membership labels k /\ (forall l, In l labels -> (l < Z.of_nat k)%Z)).
+  { intros k0 H0. destruct (forallb (fun l => (l <? Z.of_nat k0)%Z) labels) eqn:E; [|discriminate].
+    inversion H0; subst. split; [reflexivity|]. split; [reflexivity|].
+    rewrite forallb_forall in E. intros l Hl. apply Z.ltb_lt. apply E. exact Hl. }
+  destruct o as [k0|].
+  - apply Hgen in H. destruct H as [-> [H1 H2]]. auto.
+  - destruct (zmax labels) as [m|]; [|discriminate].
+    destruct (m + 1 <? 0)%Z; [discriminate|].
+    apply Hgen in H. destruct H as [_ [H1 H2]]. auto.
+Qed.
+
+Lemma labels_in_range labels k :
+  (forall l, In l labels -> (0 <= l)%Z) -> (forall l, In l labels -> (l < Z.of_nat k)%Z) ->
+  in_range k (nthz labels) (length labels).
+Proof. intros H0 H1 j Hj. assert (H := nthz_In labels j Hj). split; [apply H0 | apply H1]; exact H. Qed.
+
+Lemma nonneg_row_sum n X i : (forall j, j < n -> (0 <= ent X i j)%Q) -> (0 <= row_sum n X i)%Q.
+Proof. intros H. unfold row_sum. apply sumq_nonneg. intros j Hj. apply in_seq in Hj. apply H. lia. Qed.
+
+(** Rows of normalize(X . M): the common core of probs_, probs_row_, probs_col_. *)
+Lemma probs_core r n k X lab i :
+  in_range k lab n -> (forall j, j < n -> (0 <= ent X i j)%Q) -> i < r ->
+  let P := normalize r k (mmul r n k X (onehot n k lab)) in
+  (forall c, c < k -> (0 <= ent P i c)%Q) /\
+  ((0 < row_sum n X i)%Q -> (row_sum k P i == 1)%Q) /\
+  ((row_sum k P i == 0)%Q <-> (row_sum n X i == 0)%Q).
+Proof.
+  intros Hr HX Hi P.
+  assert (Hrs := row_sum_mmul_onehot r n k X lab i Hr Hi).
+  destruct (normalize_rows r k (mmul r n k X (onehot n k lab)) i) as [H1 [H2 H3]]; [|exact Hi|].
+  { intros c Hc. apply ent_mmul_nonneg; assumption. }
+  fold P in H1, H2, H3. rewrite Hrs in H2, H3.
+  split; [exact H1|]. split; [exact H2|]. split.
+  - intros E. assert (Hp := nonneg_row_sum n X i HX).
+    destruct (Qlt_le_dec 0 (row_sum n X i)) as [Hlt|Hle]; [|lra].
+    apply H2 in Hlt. rewrite E in Hlt. discriminate.
+  - intros E. apply H3. exact E.
+Qed.
+
+Lemma secondary_ok A labels k P G :
+  secondary A labels = Ok (k, P, G) ->
+  let n := length labels in
+  let M := onehot n k (nthz labels) in
+  (forall l, In l labels -> (l < Z.of_nat k)%Z) /\
+  P = normalize n k (mmul n n k A M) /\ G = mmul k n k (mtrans n k M) (mmul n n k A M).
+Proof.
+  unfold secondary. destruct (get_membership labels None) as [[k0 M0]|e] eqn:E; [|discriminate].
+  intros H. inversion H; subst. apply get_membership_ok in E. destruct E as [-> [H1 _]].
+  split; [exact H1|]. split; reflexivity.
+Qed.
+
+Lemma probs_rows_sum_pf A labels k P G :
+  secondary A labels = Ok (k, P, G) ->
+  let n := length labels in
+  (forall i j, i < n -> j < n -> (0 <= ent A i j)%Q) ->
+  (forall l, In l labels -> (0 <= l)%Z) ->
+  forall i, i < n ->
+    (forall c, c < k -> (0 <= ent P i c)%Q) /\
+    ((0 < row_sum n A i)%Q -> (row_sum k P i == 1)%Q) /\
+    ((row_sum k P i == 0)%Q <-> (row_sum n A i == 0)%Q).
+Proof.
+  intros H n HA Hl i Hi. apply secondary_ok in H. destruct H as [Hlt [-> _]].
+  apply probs_core; [apply labels_in_range; assumption | intros j Hj; apply HA; assumption | exact Hi].
+Qed.
+
+Lemma aggregate_is_block_sum_pf A labels k P G :
+  secondary A labels = Ok (k, P, G) ->
+  let n := length labels in
+  forall a b, a < k -> b < k -> (ent G a b == block_sum n n A (nthz labels) (nthz labels) a b)%Q.
+Proof.
+  intros H n a b Ha Hb. apply secondary_ok in H. destruct H as [_ [_ ->]].
+  apply block_sum_right; assumption.
+Qed.
+
+Lemma aggregate_total_preserved_pf A labels k P G :
+  secondary A labels = Ok (k, P, G) ->
+  let n := length labels in
+  (forall l, In l labels -> (0 <= l)%Z) ->
+  (total k k G == total n n A)%Q.
+Proof.
+  intros H n Hl. apply secondary_ok in H. destruct H as [Hlt [_ ->]].
+  assert (Hr := labels_in_range labels k Hl Hlt).
+  rewrite total_mtrans_onehot by exact Hr.
+  apply total_ext. intros i Hi. apply row_sum_mmul_onehot; assumption.
+Qed.
+
+Lemma secondary_bip_ok B lrow lcol k Pr Pc G :
+  secondary_bip B lrow lcol = Ok (k, Pr, Pc, G) ->
+  let nr := length lrow in
+  let nc := length lcol in
+  let Mr := onehot nr k (nthz lrow) in
+  let Mc := onehot nc k (nthz lcol) in
+  (forall l, In l lrow -> (l < Z.of_nat k)%Z) /\ (forall l, In l lcol -> (l < Z.of_nat k)%Z) /\
+  Pr = normalize nr k (mmul nr nc k B Mc) /\
+  Pc = normalize nc k (mmul nc nr k (mtrans nr nc B) Mr) /\
+  G = mmul k nc k (mmul k nr nc (mtrans nr k Mr) B) Mc.
+Proof.
+  unfold secondary_bip. destruct (zmax lrow) as [a|]; [|discriminate].
+  destruct (zmax lcol) as [b|]; [|discriminate].
+  destruct (Z.max a b + 1 <? 0)%Z; [discriminate|].
+  destruct (get_membership lrow (Some (Z.to_nat (Z.max a b + 1)))) as [[k1 M1]|e1] eqn:E1; [|discriminate].
+  destruct (get_membership lcol (Some (Z.to_nat (Z.max a b + 1)))) as [[k2 M2]|e2] eqn:E2; [|discriminate].
+  intros H. inversion H; subst.
+  apply get_membership_ok in E1. destruct E1 as [-> [H1 ->]].
+  apply get_membership_ok in E2. destruct E2 as [-> [H2 ->]].
+  repeat split; auto.
+Qed.
+
+Lemma probs_rows_sum_bip_pf B lrow lcol k Pr Pc G :
+  secondary_bip B lrow lcol = Ok (k, Pr, Pc, G) ->
+  let nr := length lrow in
+  let nc := length lcol in
+  (forall i j, i < nr -> j < nc -> (0 <= ent B i j)%Q) ->
+  (forall l, In l lrow -> (0 <= l)%Z) -> (forall l, In l lcol -> (0 <= l)%Z) ->
+  (forall i, i < nr ->
+     (forall c, c < k -> (0 <= ent Pr i c)%Q) /\
+     ((0 < row_sum nc B i)%Q -> (row_sum k Pr i == 1)%Q) /\
+     ((row_sum k Pr i == 0)%Q <-> (row_sum nc B i == 0)%Q)) /\
+  (forall j, j < nc ->
+     (forall c, c < k -> (0 <= ent Pc j c)%Q) /\
+     ((0 < row_sum nr (mtrans nr nc B) j)%Q -> (row_sum k Pc j == 1)%Q) /\
+     ((row_sum k Pc j == 0)%Q <-> (row_sum nr (mtrans nr nc B) j == 0)%Q)).
+Proof.
+  intros H nr nc HB Hr Hc. apply secondary_bip_ok in H.
+  destruct H as [Hr1 [Hc1 [-> [-> _]]]]. split.
+  - intros i Hi. apply probs_core; [apply labels_in_range; assumption | intros j Hj; apply HB; assumption | exact Hi].
+  - intros j Hj. apply probs_core; [apply labels_in_range; assumption | | exact Hj].
+    intros i Hi. rewrite ent_mtrans by assumption. apply HB; assumption.
+Qed.
+
+Lemma aggregate_bip_pf B lrow lcol k Pr Pc G :
+  secondary_bip B lrow lcol = Ok (k, Pr, Pc, G) ->
+  let nr := length lrow in
+  let nc := length lcol in
+  (forall a b, a < k -> b < k -> (ent G a b == block_sum nr nc B (nthz lrow) (nthz lcol) a b)%Q) /\
+  ((forall l, In l lrow -> (0 <= l)%Z) -> (forall l, In l lcol -> (0 <= l)%Z) ->
+   (total k k G == total nr nc B)%Q).
+Proof.
+  intros H nr nc. apply secondary_bip_ok in H. destruct H as [Hr1 [Hc1 [_ [_ ->]]]]. split.
+  - intros a b Ha Hb. apply block_sum_left; assumption.
+  - intros Hr Hc.
+    rewrite <- (total_mtrans_onehot nr k nc B (nthz lrow)) by (apply labels_in_range; assumption).
+    apply total_ext. intros a Ha. apply row_sum_mmul_onehot; [apply labels_in_range; assumption | exact Ha].
+Qed.
+
+(* ------------------------------------------------------------------------------------------ *)
+(** * Composition of memberships across aggregation levels *)
+
+(** M (n x k) is, up to ==, the one-hot matrix of the labelling f. *)
+Definition oh (n k : nat) (M : mat) (f : nat -> nat) : Prop :=
+  length M = n /\ (forall v, v < n -> f v < k) /\
+  forall v c, v < n -> c < k -> (ent M v c == if Nat.eqb (f v) c then 1 else 0)%Q.
+
+Lemma oh_identity n : oh n n (identity n) (fun v => v).
+Proof.
+  unfold identity. split; [apply mk_length|]. split; [auto|].
+  intros v c Hv Hc. rewrite ent_mk by assumption. reflexivity.
+Qed.
+
+Lemma oh_step n k M f lab k' M' :
+  oh n k M f -> length lab = k -> (forall l, In l lab -> (0 <= l)%Z) ->
+  get_membership lab None = Ok (k', M') ->
+  oh n k' (mmul n k k' M M') (fun v => Z.to_nat (nthz lab (f v))).
+Proof.
+  intros [HL [Hf HM]] Hlen Hpos Hg. apply get_membership_ok in Hg. destruct Hg as [-> [Hlt _]].
+  split; [unfold mmul; apply mk_length|]. split.
+  - intros v Hv. assert (Hin : In (nthz lab (f v)) lab) by (apply nthz_In; rewrite Hlen; apply Hf; exact Hv).
+    specialize (Hlt _ Hin). specialize (Hpos _ Hin). lia.
+  - intros v c Hv Hc. rewrite ent_mmul by assumption.
+    rewrite (sumq_ext _ (fun j => if (Z.of_nat (f v) =? Z.of_nat j)%Z then ent (membership lab k') j c else 0%Q)).
+    + rewrite (sumq_onehot (Z.of_nat (f v)) (fun j => ent (membership lab k') j c) 0 k)
+        by (specialize (Hf v Hv); cbn [Nat.add]; lia).
+      rewrite Nat2Z.id. unfold membership. rewrite ent_onehot by (try rewrite Hlen; auto).
+      assert (Hin : In (nthz lab (f v)) lab) by (apply nthz_In; rewrite Hlen; apply Hf; exact Hv).
+      specialize (Hpos _ Hin).
+      destruct (nthz lab (f v) =? Z.of_nat c)%Z eqn:E1; destruct (Nat.eqb (Z.to_nat (nthz lab (f v))) c) eqn:E2;
+        try reflexivity.
+      * apply Z.eqb_eq in E1. apply Nat.eqb_neq in E2. lia.
+      * apply Z.eqb_neq in E1. apply Nat.eqb_eq in E2. lia.
+    + intros j Hj. apply in_seq in Hj. rewrite (HM v j Hv) by lia.
+      destruct (Nat.eqb (f v) j) eqn:E1; destruct (Z.of_nat (f v) =? Z.of_nat j)%Z eqn:E2; try ring.
+      * apply Nat.eqb_eq in E1. apply Z.eqb_neq in E2. lia.
+      * apply Nat.eqb_neq in E1. apply Z.eqb_eq in E2. lia.
+Qed.
+
+Lemma compose_levels_oh n levels : forall kcur M f k Mf,
+  oh n kcur M f ->
+  (forall lab, In lab levels -> forall l, In l lab -> (0 <= l)%Z) ->
+  compose_levels n kcur M levels = Ok (k, Mf) ->
+  oh n k Mf (fun v => fold_left (fun x lab => Z.to_nat (nthz lab x)) levels (f v)).
+Proof.
+  induction levels as [|lab rest IH]; intros kcur M f k Mf Hoh Hpos H.
+  - cbn in H. inversion H; subst. exact Hoh.
+  - cbn [compose_levels] in H.
+    destruct (get_membership lab None) as [[k' M']|e] eqn:Eg; [|discriminate].
+    destruct (Nat.eqb kcur (length lab)) eqn:Ek; [|discriminate].
+    apply Nat.eqb_eq in Ek.
+    cbn [fold_left].
+    apply (IH k' (mmul n kcur k' M M') (fun v => Z.to_nat (nthz lab (f v)))); [| |exact H].
+    + apply oh_step; auto. intros l Hl. apply (Hpos lab); [left; reflexivity | exact Hl].
+    + intros lab' Hin. apply Hpos. right; exact Hin.
+Qed.
+
+Lemma filter_eqb_seq a s k : s <= a < s + k -> filter (Nat.eqb a) (seq s k) = [a].
+Proof.
+  revert s. induction k as [|k IH]; intros s H; [lia|].
+  cbn [seq filter]. destruct (Nat.eqb a s) eqn:E.
+  - apply Nat.eqb_eq in E. subst s. f_equal.
+    assert (Hnone : forall t m, a < t -> filter (Nat.eqb a) (seq t m) = []).
+    { intros t m. revert t. induction m as [|m IHm]; intros t Ht; [reflexivity|].
+      cbn [seq filter]. destruct (Nat.eqb a t) eqn:E2; [apply Nat.eqb_eq in E2; lia|]. apply IHm. lia. }
+    apply Hnone. lia.
+  - apply Nat.eqb_neq in E. apply IH. lia.
+Qed.
+
+Lemma flat_map_singletons {A} (g : A -> list nat) (l : list A) (d : A) : forall (h : nat -> nat),
+  (forall v, v < length l -> g (nth v l d) = [h v]) -> flat_map g l = map h (seq 0 (length l)).
+Proof.
+  induction l as [|a t IH]; intros h H; [reflexivity|].
+  cbn [flat_map length seq map]. assert (H0 := H 0 ltac:(cbn; lia)). cbn [nth] in H0. rewrite H0. cbn [app]. f_equal.
+  rewrite <- seq_shift, map_map. apply IH. intros v Hv. apply (H (S v)). cbn. lia.
+Qed.
+
+Lemma indices_of_oh n k M f : oh n k M f -> indices_of k M = map f (seq 0 n).
+Proof.
+  intros [HL [Hf HM]]. unfold indices_of. rewrite <- HL.
+  apply (flat_map_singletons _ M []). intros v Hv. rewrite HL in Hv.
+  rewrite <- (filter_eqb_seq (f v) 0 k) by (specialize (Hf v Hv); lia).
+  apply filter_ext_in. intros c Hc. apply in_seq in Hc.
+  change (nthq (nth v M []) c) with (ent M v c).
+  assert (E := HM v c Hv). specialize (E ltac:(lia)).
+  destruct (Nat.eqb (f v) c); destruct (Qeq_bool (ent M v c) 0) eqn:Eq; try reflexivity.
+  - apply Qeq_bool_iff in Eq. rewrite Eq in E. discriminate.
+  - assert (Hq : Qeq_bool (ent M v c) 0 = true) by (apply Qeq_bool_iff; exact E). congruence.
+Qed.
+
+Lemma membership_composition_pf n levels k M :
+  (forall lab, In lab levels -> forall l, In l lab -> (0 <= l)%Z) ->
+  louvain_membership n levels = Ok (k, M) ->
+  let labels := indices_of k M in
+  labels = map (compose_fn levels) (seq 0 n) /\
+  length labels = n /\
+  forall v, v < n -> nthn labels v = compose_fn levels v /\ nthn labels v < k.
+Proof.
+  intros Hpos H labels. unfold louvain_membership in H.
+  assert (Hoh := compose_levels_oh n levels n (identity n) (fun v => v) k M (oh_identity n) Hpos H).
+  assert (E : labels = map (compose_fn levels) (seq 0 n)) by (apply (indices_of_oh n k M _ Hoh)).
+  split; [exact E|]. split; [rewrite E, map_length, seq_length; reflexivity|].
+  intros v Hv. rewrite E. rewrite (nthn_map_lt _ _ 0) by (rewrite seq_length; exact Hv).
+  rewrite seq_nth by exact Hv. cbn [Nat.add]. split; [reflexivity|].
+  destruct Hoh as [_ [Hf _]]. apply (Hf v Hv).
+Qed.
+
+(* ------------------------------------------------------------------------------------------ *)
+(** * KCenters *)
+
+Lemma nth_repeat_gen {A} (x d : A) m v : nth v (repeat x m) d = if Nat.ltb v m then x else d.
+Proof.
+  revert v. induction m as [|m IH]; intros v; [destruct v; reflexivity|].
+  destruct v as [|v]; [reflexivity|]. cbn [repeat nth]. rewrite IH.
+  destruct (Nat.ltb v m) eqn:E; destruct (Nat.ltb (S v) (S m)) eqn:E2; try reflexivity.
+  - apply Nat.ltb_lt in E. apply Nat.ltb_ge in E2. lia.
+  - apply Nat.ltb_ge in E. apply Nat.ltb_lt in E2. lia.
+Qed.
+
+Lemma compute_mask_spec b pos nr nc mask :
+  compute_mask b pos nr nc = Ok mask ->
+  length mask = (if b then nr + nc else nr) /\
+  forall v, nthb mask v = true <-> admissible b pos nr nc v.
+Proof.
+  unfold compute_mask, admissible, nthb. intros H.
+  destruct b.
+  - destruct pos; inversion H; subst; clear H.
+    + split; [rewrite app_length, !repeat_length; reflexivity|]. intros v.
+      destruct (Nat.lt_ge_cases v nr) as [Hv|Hv].
+      * rewrite app_nth1 by (rewrite repeat_length; exact Hv). rewrite nth_repeat_gen.
+        apply Nat.ltb_lt in Hv. rewrite Hv. apply Nat.ltb_lt in Hv. tauto.
+      * rewrite app_nth2 by (rewrite repeat_length; exact Hv). rewrite nth_repeat_gen.
+        destruct (Nat.ltb (v - length (repeat true nr)) nc); split; intros; try discriminate; lia.
+    + split; [rewrite app_length, !repeat_length; reflexivity|]. intros v.
+      destruct (Nat.lt_ge_cases v nr) as [Hv|Hv].
+      * rewrite app_nth1 by (rewrite repeat_length; exact Hv). rewrite nth_repeat_gen.
+        destruct (Nat.ltb v nr); split; intros; try discriminate; lia.
+      * rewrite app_nth2 by (rewrite repeat_length; exact Hv). rewrite nth_repeat_gen, repeat_length.
+        destruct (Nat.ltb (v - nr) nc) eqn:E; [apply Nat.ltb_lt in E | apply Nat.ltb_ge in E];
+          split; intros; try discriminate; try lia; auto.
+    + split; [apply repeat_length|]. intros v. rewrite nth_repeat_gen.
+      destruct (Nat.ltb v (nr + nc)) eqn:E; [apply Nat.ltb_lt in E | apply Nat.ltb_ge in E];
+        split; intros; try discriminate; try lia; auto.
+  - inversion H; subst; clear H. split; [apply repeat_length|]. intros v. rewrite nth_repeat_gen.
+    destruct (Nat.ltb v nr) eqn:E; [apply Nat.ltb_lt in E | apply Nat.ltb_ge in E];
+      split; intros; try discriminate; try lia; auto.
+Qed.
+
+Lemma nthb_true_lt mask v : nthb mask v = true -> v < length mask.
+Proof.
+  intros H. destruct (Nat.lt_ge_cases v (length mask)) as [Hv|Hv]; [exact Hv|].
+  unfold nthb in H. rewrite nth_overflow in H by exact Hv. discriminate.
+Qed.
+
+Lemma masked_In mask v : In v (masked mask) <-> nthb mask v = true.
+Proof.
+  unfold masked. rewrite filter_In, in_seq. split; [tauto|].
+  intros H. split; [|exact H]. apply nthb_true_lt in H. lia.
+Qed.
+
+Lemma masked_NoDup mask : NoDup (masked mask).
+Proof. unfold masked. apply NoDup_filter. apply seq_NoDup. Qed.
+
+Lemma clear_mask_spec mask c v :
+  nthb (clear_mask mask c) v = true <-> nthb mask v = true /\ v <> c.
+Proof.
+  unfold clear_mask, nthb. destruct (Nat.eq_dec c v) as [->|Hne].
+  - split; [|tauto]. intros H. exfalso.
+    assert (Hlt : v < length (upd mask v false)) by (apply nthb_true_lt; exact H).
+    rewrite upd_length in Hlt. rewrite nth_upd_same in H by exact Hlt. discriminate.
+  - rewrite nth_upd_other by exact Hne. split; [intros H; split; [exact H | auto] | tauto].
+Qed.
+
+Lemma qmin_In l m : qmin l = Some m -> In m l.
+Proof.
+  destruct l as [|x t]; [discriminate|]. cbn [qmin]. intros H. inversion H; subst; clear H.
+  revert x. induction t as [|y t IH]; intros x; [left; reflexivity|].
+  cbn [fold_left]. destruct (Qle_bool x y).
+  - destruct (IH x) as [E|Hin]; [left; exact E | right; right; exact Hin].
+  - right. apply IH.
+Qed.
+
+Lemma NoDup_snoc {A} (l : list A) x : NoDup l -> ~ In x l -> NoDup (l ++ [x]).
+Proof.
+  induction l as [|a t IH]; intros HN Hx; cbn [app]; [constructor; [intros []|constructor]|].
+  inversion HN as [|? ? Ha HNt]; subst. constructor.
+  - intros H. apply in_app_iff in H. destruct H as [H|[H|[]]]; [auto|]. apply Hx. left. symmetry. exact H.
+  - apply IH; [exact HNt|]. intros H. apply Hx. right; exact H.
+Qed.
+
+Section InitCenters.
+  Context (orig : list bool) (ppr : list nat -> list Q) (pick : nat -> list nat -> nat).
+  Context (Hpick : pick_ok pick).
+
+  Lemma init_loop_inv : forall steps step mask centers trace,
+    (forall v, nthb mask v = true <-> nthb orig v = true /\ ~ In v centers) ->
+    NoDup centers -> (forall c, In c centers -> nthb orig c = true) ->
+    length centers + steps <= length (masked orig) ->
+    exists cs tr, init_loop steps step ppr pick mask centers trace = Ok (cs, tr) /\
+                  length cs = length centers + steps /\ NoDup cs /\
+                  forall c, In c cs -> nthb orig c = true.
+  Proof.
+    induction steps as [|s IH]; intros step mask centers trace Hmask HN Hin Hlen.
+    - exists centers, trace. cbn. repeat split; auto.
+    - cbn [init_loop].
+      assert (Hne : masked mask <> []).
+      { intros E.
+        assert (Hincl : incl (masked orig) centers).
+        { intros v Hv. apply masked_In in Hv.
+          destruct (in_dec Nat.eq_dec v centers) as [Hc|Hc]; [exact Hc|]. exfalso.
+          assert (Hm : nthb mask v = true) by (apply Hmask; split; assumption).
+          apply masked_In in Hm. rewrite E in Hm. destruct Hm. }
+        assert (Hle := NoDup_incl_length (masked_NoDup orig) Hincl). lia. }
+      destruct (qmin (map (nthq (ppr centers)) (masked mask))) as [m|] eqn:Eq.
+      2:{ exfalso. destruct (masked mask); [apply Hne; reflexivity | discriminate]. }
+      set (cands := if Qeq_bool m 0 then filter (fun v => Qeq_bool (nthq (ppr centers) v) 0) (masked mask)
+                    else masked mask).
+      assert (Hcne : cands <> []).
+      { unfold cands. destruct (Qeq_bool m 0) eqn:Em; [|exact Hne].
+        apply qmin_In in Eq. apply in_map_iff in Eq. destruct Eq as [v [Ev Hv]].
+        intros E. assert (Hf : In v (filter (fun v => Qeq_bool (nthq (ppr centers) v) 0) (masked mask))).
+        { apply filter_In. split; [exact Hv|]. rewrite Ev. exact Em. }
+        rewrite E in Hf. destruct Hf. }
+      assert (Hsub : forall v, In v cands -> In v (masked mask)).
+      { unfold cands. destruct (Qeq_bool m 0); [|auto]. intros v Hv. apply filter_In in Hv. tauto. }
+      assert (Hc := Hpick step cands Hcne). apply Hsub in Hc. apply masked_In in Hc.
+      apply Hmask in Hc. destruct Hc as [Hco Hcn].
+      destruct (IH (S step) (clear_mask mask (pick step cands)) (centers ++ [pick step cands]) (trace ++ [cands]))
+        as [cs [tr [E [Hl [Hnd Hall]]]]].
+      + intros v. rewrite clear_mask_spec, Hmask, in_app_iff. cbn [In]. split.
+        * intros [[H1 H2] H3]. split; [exact H1|]. intros [H|[H|[]]]; [auto | congruence].
+        * intros [H1 H2]. split; [split; [exact H1 | tauto] | intros E; apply H2; right; left; auto].
+      + apply NoDup_snoc; assumption.
+      + intros c Hc. apply in_app_iff in Hc. destruct Hc as [Hc|[<-|[]]]; auto.
+      + rewrite app_length. cbn [length]. lia.
+      + exists cs, tr. split; [exact E|]. split; [|split; assumption].
+        rewrite Hl, app_length. cbn [length]. lia.
+  Qed.
+End InitCenters.
